@@ -55,6 +55,38 @@ pub fn oracle_any(req: &crate::req::Req, got: &crate::req::Resp) -> Result<(), S
     crate::mops::oracle(req, got)
 }
 
+/// labels of any request, by dispatching to the classifier of the property that owns the op
+pub fn classify_any(req: &crate::req::Req, resp: &crate::req::Resp) -> Vec<&'static str> {
+    let op = req.op.as_str();
+    if op.starts_with("sc.") {
+        c02::classify(req, resp)
+    } else if op == "ed.decompress" {
+        c03::decoder_labels(req, resp)
+    } else if op == "ed.history" {
+        c03::history_labels(req, resp)
+    } else if op.starts_with("sm.") {
+        c04::classify(req, resp)
+    } else if op.starts_with("rs.") {
+        c06::classify(req, resp)
+    } else if op.starts_with("mt.") || op.starts_with("x.") {
+        c07::classify(req, resp)
+    } else if op == "sig.verify" {
+        c09::classify(req, resp)
+    } else if op == "sig.batch" {
+        c13::classify(req, resp)
+    } else if op.starts_with("sig.") {
+        c08::classify(req, resp)
+    } else if op.starts_with("sd.") {
+        c16::classify(req, resp)
+    } else if op.starts_with("gp.") {
+        c17::classify(req, resp)
+    } else if op.starts_with("tot.") {
+        c15::classify(req, resp)
+    } else {
+        vec![]
+    }
+}
+
 pub fn labels32(chunks: &[&[u8]]) -> Vec<&'static str> {
     use crate::gens::*;
     let mut v = vec![];
